@@ -10,6 +10,8 @@ package PKGNAME
 import (
 	"bytes"
 	"fmt"
+	"io"
+	"net"
 	"reflect"
 	"runtime"
 	"strconv"
@@ -365,3 +367,62 @@ var vrtClockOffset int64 // harness clock = real clock + offset (native side)
 func vrtClock() int64          { return time.Now().UnixNano() + atomic.LoadInt64(&vrtClockOffset) }
 func vrtClockSet(ns int64)     { atomic.StoreInt64(&vrtClockOffset, ns-time.Now().UnixNano()) }
 func vrtTimeNS(t time.Time) int64 { return t.UnixNano() + atomic.LoadInt64(&vrtClockOffset) }
+
+// ---------------------------------------------------------------------------
+// Dialling (native side): Client.Connect calls net.Dial. The engine returns the
+// harness pipe directly; natively a loopback listener accepts the client's TCP
+// connection and a proxy couples it to the "library end" of the harness pipe,
+// so the harness scripts the server through the same peer API in both worlds.
+
+type vrtPipeEnd interface {
+	io.Reader
+	io.Writer
+	io.Closer
+}
+
+var vrtDialAddr string
+
+func vrtSetDialConnEnd(c vrtPipeEnd) {
+	ln, err := net.Listen("tcp", "127.0.0.1:0")
+	if err != nil {
+		panic(err)
+	}
+	vrtDialAddr = ln.Addr().String()
+	go func() {
+		defer ln.Close()
+		tc, err := ln.Accept()
+		if err != nil {
+			return
+		}
+		// client -> pipe
+		go func() {
+			buf := make([]byte, 4096)
+			for {
+				n, err := tc.Read(buf)
+				if n > 0 {
+					c.Write(buf[:n])
+				}
+				if err != nil {
+					c.Close()
+					return
+				}
+			}
+		}()
+		// pipe -> client
+		buf := make([]byte, 4096)
+		for {
+			n, err := c.Read(buf)
+			if n > 0 {
+				tc.Write(buf[:n])
+			}
+			if err != nil {
+				tc.Close()
+				return
+			}
+		}
+	}()
+}
+
+func vrtDialURI() string { return "tcp://" + vrtDialAddr }
+
+func vrtLiveThreads() int { return -1 }
